@@ -104,6 +104,17 @@ def generate(tier, rng):
     out.append(reader_line("AIOR", 300000, frh, None, "src", [300000], ""))
     out.append(reader_line("AIOR", 300000, frh, None, "src", [4, 131072, "P", 1, "P", 300000], "XP"))
     out.append(reader_line("AIOR", 300000, frh, None, "src", [4, 100000, "E", 31072, "P", 300000], "X"))
+    # payloads of exactly 65536 and 131072 bytes (a reader that fills its buffer in 64 KiB steps computes the last step from a remainder)
+    for tot in (65536, 131072):
+        inner = tot - (3 if tot - 3 < 65536 else 5)
+        pl = bytes((i * 3 + 1) & 0xff for i in range(inner))
+        fx = [good(pl), good(b"\x09")]
+        assert len(fx[0][0]) == tot
+        out.append(reader_line("AIOR", 300000, fx, None, "src", [300000], ""))
+        out.append(reader_line("AIOR", 300000, fx, None, "src", [4, 65536, 1, 300000], ""))
+    # the caller drops the future at a Pending the source did not cause (a reader that yields voluntarily)
+    out.append(reader_line("AIOR", 100000, frb, None, "src", [100000], "XX"))
+    out.append(reader_line("AIOR", 300000, frh, None, "src", [300000], "XXXX"))
     return out
 
 def _kv(line, key):
